@@ -308,3 +308,70 @@ Proof.
   split; [apply ex_lines_at|]. split; [apply sys_kernel; discriminate|]. vm_compute. repeat split.
 Qed.
 End C03_translated_write.
+
+(* ------------------------------------------------------------------------------------------ *)
+(* THE MODEL IS THE C TEXT (coq/TrSave.v): lbuf_save of /repo/ex.c -- the overwrite guard, open, lbuf_wr, close --, translated by
+   tools/c2clite.py (whitelist tools/c2clite.d/99zzzz_save.list; `mtime > 0` compares the FUNCTION mtime with 0 and is the constant
+   true, as IoDefs.refuses says) and RUN by the checked semantics of coq/CLite.v, calling the translated lbuf_len and lbuf_wr.
+   mtime, open, conf_mode and close are answered by the oracle save_oracle, the kernel of C03_tr_lbuf_wr extended by block kt (the
+   time stamp stat(2) reports for the path, -1 = absent) and block kf (is the target descriptor open): open consumes one outcome of
+   the schedule (error = -1, otherwise descriptor 3); close of the open descriptor consumes one (error = -1) and closes it; close of
+   a descriptor that is not open is -1 and consumes nothing -- the way IoDefs.lbuf_save / save_opened read a schedule.
+   For EVERY such oracle, schedule s, buffer in memory, range (end < 0 = the whole buffer, read from ln_n), force flag, recorded
+   stamp ts, and every file system that reports the stamp of block kt for the path: the translated lbuf_save returns, its status
+   (NULL = ok; "file changed" / "file exists" = refused; "cannot create file" / "write failed" = failed) and the schedule it leaves
+   are IoDefs.lbuf_save's; a refusal makes no system call but mtime and leaves the memory as it was; the descriptor is closed
+   afterwards in every case; no block other than the kernel's is changed. *)
+From NV Require CLite CLiteProps GenCFuncs CLiteExt TrLbufBase TrWrite TrSave.
+Section C03_translated_save.
+Import CLite CLiteProps GenCFuncs CLiteExt TrLbufBase TrWrite TrSave.
+
+Theorem C03_tr_lbuf_save : forall ext ks kl kt kf m lb bln lbs lines (beg : nat) (enZ : Z) pb po force ts s lg mt d fuel now path fs,
+  save_oracle ext ks kl kt kf -> world4 ks kl kt kf m s lg mt 0 -> lines_at ks kl m lb bln lbs lines ->
+  ~ In kt (lb :: bln :: lbs) -> ~ In kf (lb :: bln :: lbs) ->
+  (exists blk, nth_error m lb = Some blk /\ nth_error blk L_ln_n = Some (VInt (Z.of_nat (length lines)))) ->
+  let e := if (enZ <? 0)%Z then length lines else Z.to_nat enZ in
+  (e <= length lines)%nat -> (-2147483648 <= enZ <= 2147483647)%Z ->
+  (Z.of_nat (length lines) <= 2147483647)%Z -> (Z.of_nat (length (concat lines)) <= 4611686018427387904)%Z ->
+  (length s + 2 <= fuel)%nat -> (e - beg + 2 <= fuel)%nat ->
+  fs_mtime fs path = mt ->
+  let '(st, fs', r) := IoDefs.lbuf_save now lines beg e path (negb (force =? 0)%Z) ts fs s in
+  exists v ev m',
+    callx ext cprog fuel (S (S (S (S d)))) F_ex_lbuf_save
+          [VPtr lb 0; VInt (Z.of_nat beg); VInt enZ; VPtr pb po; VInt force; VInt ts] m = Ok (v, m')
+    /\ status_of v = st /\ (v = VInt 0 <-> st = SOk)
+    /\ world4 ks kl kt kf m' r (lg ++ ev) mt 0
+    /\ forall k, (k < length m)%nat -> k <> ks -> k <> kl -> k <> kf -> nth_error m' k = nth_error m k.
+Proof. exact tr_lbuf_save_model. Qed.
+Print Assumptions C03_tr_lbuf_save.
+
+(* not vacuous, and the translated lbuf_save RUNS (TrSave.ex_save s mt end force ts: the buffer "ab\n", "c\n", a line of 4096 bytes in
+   blocks 0..4, the path in block 9; result: value, log block, schedule block).  Healthy: NULL, the log is open, the batch, the long
+   line, ftruncate 4101, close.  File newer than recorded / existing foreign file: refused, nothing logged, nothing consumed; with !
+   it is written.  open fails; the flush fails (close still consumes its outcome); close fails (closed twice, the second on a dead
+   descriptor consumes nothing).  The model gives the same status and schedule. *)
+Example C03_tr_save_nonvacuous :
+  let fs mt : fsys := [(9%nat, ([120; 10]%N, mt))] in
+  let st3 (x : status * fsys * list IoDefs.outcome) := (fst (fst x), snd x) in
+  save_oracle (sys_save 5 6 7 8) 5 6 7 8 /\ world4 5 6 7 8 (ex_smem [] 100) [] [] 100 0 /\ lines_at 5 6 (ex_smem [] 100) 0 1 [2; 3; 4]%nat ex_lines /\
+  ex_save [] 100 (-1) 0 100
+    = Some (VInt 0, enc_log [EvOpen 3; EvWrite 3 [97; 98; 10; 99; 10]%N 5; EvWrite 3 ex_long 4096; EvTrunc 3 4101; EvClose 3 0], []) /\
+  st3 (IoDefs.lbuf_save 7 ex_lines 0 3 9 false 100 (fs 100%Z) []) = (SOk, []) /\
+  ex_save [IoDefs.OErr] 200 (-1) 0 100 = Some (VPtr L_changed 0, [], enc_sch [IoDefs.OErr]) /\
+  st3 (IoDefs.lbuf_save 7 ex_lines 0 3 9 false 100 (fs 200%Z) [IoDefs.OErr]) = (SRefused, [IoDefs.OErr]) /\
+  ex_save [] 0 (-1) 0 0 = Some (VPtr L_exists 0, [], []) /\
+  st3 (IoDefs.lbuf_save 7 ex_lines 0 3 9 false 0 (fs 0%Z) []) = (SRefused, []) /\
+  ex_save [] 200 2 1 100 = Some (VInt 0, enc_log [EvOpen 3; EvWrite 3 [97; 98; 10; 99; 10]%N 5; EvTrunc 3 5; EvClose 3 0], []) /\
+  ex_save [IoDefs.OErr; OOk] 100 3 0 100 = Some (VPtr L_create 0, enc_log [EvOpen (-1)], enc_sch [OOk]) /\
+  st3 (IoDefs.lbuf_save 7 ex_lines 0 3 9 false 100 (fs 100%Z) [IoDefs.OErr; OOk]) = (SFailed, [OOk]) /\
+  ex_save [OOk; IoDefs.OErr; OOk; OOk] 100 2 1 0
+    = Some (VPtr L_failed 0, enc_log [EvOpen 3; EvWrite 3 [97; 98; 10; 99; 10]%N (-1); EvClose 3 0], enc_sch [OOk]) /\
+  st3 (IoDefs.lbuf_save 7 ex_lines 0 2 9 true 0 (fs 100%Z) [OOk; IoDefs.OErr; OOk; OOk]) = (SFailed, [OOk]) /\
+  ex_save [OOk; OOk; IoDefs.OErr; OOk] 100 2 1 0
+    = Some (VPtr L_failed 0, enc_log [EvOpen 3; EvWrite 3 [97; 98; 10; 99; 10]%N 5; EvTrunc 3 5; EvClose 3 (-1); EvClose 3 (-1)], enc_sch [OOk]) /\
+  st3 (IoDefs.lbuf_save 7 ex_lines 0 2 9 true 0 (fs 100%Z) [OOk; OOk; IoDefs.OErr; OOk]) = (SFailed, [OOk]).
+Proof.
+  cbv zeta. split; [apply sys_save_oracle; repeat constructor; cbn; intuition discriminate|].
+  split; [repeat split|]. split; [apply ex_slines_at|]. vm_compute. repeat split.
+Qed.
+End C03_translated_save.
